@@ -71,17 +71,13 @@ def run_rfn(ctx, prop, replay=None, corpus=True):
             continue
         for k, v in ctx.stat_lines(err).items():
             gen_stats[k] = gen_stats.get(k, 0) + v
-        rc, lines = ctx.driver("rfn", trace)
+        # the tree carries the repair of finding F-RFN-1 (the providers race the function against result_tx.closed()):
+        # replay against M_rfn with cancel = true; the behaviour of cancel = false is a regression
+        rc, lines = ctx.driver("rfn", trace, args=["fixed"])
         if rc != 0:
             ctx.violation("rfn driver failed", "rfn-driver-failure", "\n".join(lines[-30:]), no_input=True)
             continue
-        if any("accept=mismatch" in l for l in lines):
-            # the code as it is does not cancel an abandoned execution (finding F-RFN-1); if the tree carries
-            # the repair (race against result_tx.closed()) the runs are accepted by the `cancel` variant
-            rc2, lines2 = ctx.driver("rfn", trace, args=["fixed"])
-            if rc2 == 0 and not any("accept=mismatch" in l for l in lines2):
-                lines = lines2
-                variant_fixed += 1
+        variant_fixed += 1
         cases = split_cases(trace)
         detail = {}
         for line in lines:
